@@ -502,7 +502,7 @@ func cmdBaseline(args []string) {
 					continue
 				}
 				// quick-tier margin: only obligations decided in well under the time-out
-				if (r.Status == "proved" || r.Status == "cover-ok") && r.TimeS < 4 {
+				if (r.Status == "proved" && r.TimeS < 4) || r.Status == "cover-ok" {
 					set[r.Obl.Name] = r.Obl.Kind
 				} else if kf := known.match(id, r.Obl.Name); kf != nil && w.checkKnown(kf, r, workDir, 10) == "confined" {
 					set[r.Obl.Name] = r.Obl.Kind
